@@ -301,6 +301,103 @@ theorem source_balance_full_fails : ¬ source_balance_full := by
   simp only [Comp.solvPwrLoss, PhaseCtx.none, PhaseCtx.inactive]
   norm_num [isZ, getEff, nabs]
 
+/-! ### series drops in general (RLoss: d = rs·Io, VLoss: d = vdrop(Io,Vi), diode bridge: d = 2·vdrop) -/
+
+/-- arithmetic core: a drop `0 ≤ d < |vi|` in the direction of `vi` keeps the sign, removes exactly `d` -/
+theorem series_core (vi d : α) (hd0 : 0 ≤ d) (hd : d < |vi|) :
+    eqB (nsign (vi - d * nsign vi)) (nsign vi) = true ∧ |vi - (vi - d * nsign vi)| = d ∧
+      |vi - d * nsign vi| = |vi| - d := by
+  have hvi : vi ≠ 0 := by intro e; rw [e, abs_zero] at hd; linarith
+  rcases lt_or_gt_of_ne hvi with hn | hp
+  · have hs := nsign_of_neg hn
+    rw [abs_of_neg hn] at hd
+    have hneg : vi - d * nsign vi < 0 := by rw [hs]; linarith
+    refine ⟨by rw [eqB_iff, nsign_of_neg hneg, hs], ?_, ?_⟩
+    · rw [hs, show vi - (vi - d * -1) = -d by ring, abs_neg, abs_of_nonneg hd0]
+    · rw [abs_of_neg hneg, abs_of_neg hn, hs]; ring
+  · have hs := nsign_of_pos hp
+    rw [abs_of_pos hp] at hd
+    have hpos : 0 < vi - d * nsign vi := by rw [hs]; linarith
+    refine ⟨by rw [eqB_iff, nsign_of_pos hpos, hs], ?_, ?_⟩
+    · rw [hs, show vi - (vi - d * 1) = d by ring, abs_of_nonneg hd0]
+    · rw [abs_of_pos hpos, abs_of_pos hp, hs]; ring
+
+/-- voltage-drop element (VLoss) obeying its documented law: Power − Loss = |Vout|·Iout, 0 ≤ Loss ≤ Power,
+    rise = rt·Loss, peak = ta + rise -/
+theorem pml_vloss (c : Comp α) (hk : c.kind = .vloss) (hc : c.Phys) (vi io ta : α) (ph : PhaseCtx α)
+    (hio : 0 ≤ io) (hpol : c.par.interp |io| |vi| < |vi|) :
+    let vo := specVo c 0 vi io ph
+    let r := c.solvPwrLoss vi vo (specIi c vi io ph) io ta ph
+    r.pwr - r.loss = |vo| * io ∧ 0 ≤ r.loss ∧ r.loss ≤ r.pwr ∧ r.tr = c.rt * r.loss ∧ r.tp = ta + r.tr := by
+  intro vo r
+  have hd0 := hc.par |io| |vi|
+  generalize hdd : c.par.interp |io| |vi| = d at *
+  obtain ⟨h1, h2, h3⟩ := series_core vi d hd0 hpol
+  have hvi : vi ≠ 0 := by intro e; rw [e, abs_zero] at hpol; linarith
+  have hz : isZ vi = false := (isZ_false_iff _).mpr hvi
+  have hr : r = c.solvPwrLoss vi vo (specIi c vi io ph) io ta ph := rfl
+  have hvo : vo = vi - d * nsign vi := by
+    show specVo c 0 vi io ph = _
+    unfold specVo; simp only [hk, nabs_eq_abs, hdd]; ring
+  have hii : specIi c vi io ph = io := by unfold specIi; simp only [hk, hz]; simp
+  unfold Comp.solvPwrLoss at hr
+  simp only [hk, hii, nabs_eq_abs, hdd, h1, Bool.not_true, Bool.false_eq_true, if_false, h2,
+    abs_mul_of_nonneg_right _ _ hio] at hr
+  rw [hr, hvo, h3]
+  have hp : 0 ≤ d * io := mul_nonneg hd0 hio
+  refine ⟨by ring, hp, ?_, by ring, rfl⟩
+  nlinarith [abs_nonneg vi]
+
+/-- diode bridge obeying its documented law (two diode drops) -/
+theorem pml_diode (c : Comp α) (hk : c.kind = .rectifier) (hdi : c.diode = true) (hc : c.Phys)
+    (vi io ta : α) (ph : PhaseCtx α) (hio : 0 ≤ io) (hpol : 2 * c.par.interp |io| |vi| < |vi|) :
+    let vo := specVo c 0 vi io ph
+    let r := c.solvPwrLoss vi vo (specIi c vi io ph) io ta ph
+    r.pwr - r.loss = |vo| * io ∧ 0 ≤ r.loss ∧ r.loss ≤ r.pwr ∧ r.tr = c.rt * r.loss ∧ r.tp = ta + r.tr := by
+  intro vo r
+  have hd0 : 0 ≤ 2 * c.par.interp |io| |vi| := by have := hc.par |io| |vi|; linarith
+  generalize hdd : c.par.interp |io| |vi| = d at *
+  obtain ⟨h1, h2, h3⟩ := series_core vi (2 * d) hd0 hpol
+  have hvi : vi ≠ 0 := by intro e; rw [e, abs_zero] at hpol; linarith
+  have hz : isZ vi = false := (isZ_false_iff _).mpr hvi
+  have hr : r = c.solvPwrLoss vi vo (specIi c vi io ph) io ta ph := rfl
+  have hvo : vo = |vi| - 2 * d := by
+    show specVo c 0 vi io ph = _
+    unfold specVo; simp only [hk, hz, hdi, nabs_eq_abs, hdd]; simp
+  have hii : specIi c vi io ph = io := by unfold specIi; simp only [hk, hz, hdi]; simp
+  unfold Comp.solvPwrLoss at hr
+  simp only [hk, hz, hdi, hii, nabs_eq_abs, hdd, h1, Bool.not_true, Bool.false_eq_true, if_false, if_true, h2,
+    abs_mul_of_nonneg_right _ _ hio] at hr
+  rw [hr, hvo, abs_of_nonneg (by linarith : 0 ≤ |vi| - 2 * d)]
+  have hp : 0 ≤ 2 * d * io := mul_nonneg hd0 hio
+  refine ⟨by ring, hp, ?_, by ring, rfl⟩
+  nlinarith [abs_nonneg vi]
+
+/-- switch / mux in a steady row (Iin = Iout + ig, |Vout| ≤ |Vin|): Power − Loss = |Vout|·Iout and 0 ≤ Loss ≤ Power -/
+theorem pml_switch_steady (c : Comp α) (hk : c.kind = .pswitch ∨ c.kind = .pmux) (hc : c.Phys)
+    (vi vo io ta : α) (ph : PhaseCtx α) (hact : ph.inactive = false) (hvi : vi ≠ 0) (hio : 0 ≤ io)
+    (hpol : |vo| ≤ |vi|) :
+    let r := c.solvPwrLoss vi vo (io + c.par.interp |io| |vi|) io ta ph
+    r.pwr - r.loss = |vo| * io ∧ 0 ≤ r.loss ∧ r.loss ≤ r.pwr := by
+  intro r
+  have hig := hc.par |io| |vi|
+  have hii : 0 ≤ io + c.par.interp |io| |vi| := by linarith
+  obtain ⟨h1, _, _⟩ := pml_resid_switch c hk vi vo (io + c.par.interp |io| |vi|) io ta ph hact hvi hii hio
+  have hz : isZ vi = false := (isZ_false_iff _).mpr hvi
+  have hr : r = c.solvPwrLoss vi vo (io + c.par.interp |io| |vi|) io ta ph := rfl
+  have h1' : r.pwr - r.loss = |vo| * io := by
+    have := h1; simp only [sub_self, mul_zero, add_zero] at this; exact this
+  have hpw : r.pwr = |vi| * (io + c.par.interp |io| |vi|) := by
+    unfold Comp.solvPwrLoss finishPL at hr
+    rcases hk with hk | hk <;> simp only [hk, hz, hact, nabs_eq_abs, abs_mul_of_nonneg_right _ _ hii] at hr <;>
+      (rw [hr]; simp)
+  refine ⟨h1', ?_, ?_⟩
+  · have : r.loss = r.pwr - |vo| * io := by linarith
+    rw [this, hpw]
+    nlinarith [abs_nonneg vi, abs_nonneg vo, mul_nonneg (abs_nonneg vi) hig, mul_nonneg (sub_nonneg.mpr hpol) hio]
+  · have : r.loss = r.pwr - |vo| * io := by linarith
+    rw [this]; nlinarith [mul_nonneg (abs_nonneg vo) hio]
+
 /-! ### Whole-system balance -/
 
 /-- the six numeric cells of a table row that the balance talks about -/
